@@ -44,7 +44,8 @@ for tag in ("A", "B"):
     wt = tempfile.mkdtemp(prefix="pfvseed-", dir="/tmp")
     os.rmdir(wt)
     sh(["git", "-C", "/repo", "worktree", "add", "-q", "--detach", wt, "HEAD"])
-    meta = {"property": a.pid, "variant": tag, "base_commit": sh(["git", "-C", "/repo", "rev-parse", "HEAD"]).stdout.strip()}
+    meta = {"property": a.pid.replace("REFIX-", "")[:3], "origin": ("re-introduction of a repaired defect" if a.pid.startswith("REFIX") else
+                                                                  "independent sub-agent given only the property text"), "variant": tag, "base_commit": sh(["git", "-C", "/repo", "rev-parse", "HEAD"]).stdout.strip()}
     try:
         os.makedirs(os.path.join(wt, "_seed"), exist_ok=True)
         d = os.path.join(wt, "_seed", "demo.py")
@@ -67,8 +68,11 @@ for tag in ("A", "B"):
             r = sh(["/verif/bin/check", c, a.tier], env=env)
             lines = [l for l in r.stdout.splitlines() if l.startswith(("VIOLATION", "  monitor", "INCONCLUSIVE"))]
             meta["checks"][c] = {"tier": a.tier, "rc": r.returncode, "lines": [l[:300] for l in lines[:6]]}
+        meta["ran"] = [f"git -C /repo worktree add --detach <scratch> HEAD", f"demo on pristine scratch tree (exit {rc0}), git apply patch.diff, demo again (exit {rc1})",
+                       "python3 tools/suite.py <scratch>  (full test suite, compared with BASELINE stable_pass)" if not a.no_suite else "suite not re-run in this pass",
+                       *[f"PFV_REPO=<scratch> bin/check {c} {a.tier}" for c in checks], "git worktree remove --force <scratch>"]
         notes = os.path.join(a.dir, "notes.md")
-        meta["notes_excerpt"] = open(notes).read()[:3000] if os.path.exists(notes) else ""
+        meta["needs_to_manifest_and_notes"] = open(notes).read()[:3500] if os.path.exists(notes) else ""
         confirmed = rc0 == 0 and rc1 != 0 and ("missing_from_stable 0" in meta.get("suite", "missing_from_stable 0"))
         meta["confirmed"] = confirmed
         out = os.path.join("/verif/seeded", f"{a.pid}-{tag}")
